@@ -27,6 +27,14 @@ type VerifConn struct {
 }
 
 // VerifNewConn builds a conn whose buffered reader/writer sit on r and w.
+// VerifNewConnDebug is VerifNewConn with a logger at Debug level (its output is
+// discarded): the request path has code that only runs when debug logging is on.
+func VerifNewConnDebug(r io.Reader, w io.Writer, router *Mux, connID int) *VerifConn {
+	vc := VerifNewConn(r, w, router, connID)
+	vc.c.logger = hclog.New(&hclog.LoggerOptions{Level: hclog.Debug, Output: io.Discard})
+	return vc
+}
+
 func VerifNewConn(r io.Reader, w io.Writer, router *Mux, connID int) *VerifConn {
 	if router == nil {
 		router = &Mux{}
